@@ -8,6 +8,7 @@ import (
 	"fmt"
 	stdlog "log"
 	"os"
+	"path/filepath"
 	"runtime"
 	"strconv"
 	"strings"
@@ -86,6 +87,26 @@ type Case struct {
 	J     int    `json:"j"`
 	Depth int    `json:"depth"`
 	Hooks string `json:"hooks"` // none | before | after | both
+	// Marshal: the program's CallerMarshalFunc while this event is logged ("" the default file:line,
+	// "base" base name and line, "tag" a prefixed form): set at run time, so the same call site is
+	// rendered by different functions in the course of one process
+	Marshal string `json:"caller_marshal,omitempty"`
+}
+
+// renderCaller is what the CallerMarshalFunc of kind renders for a frame given as file:line.
+func renderCaller(kind, fileLine string) string {
+	i := strings.LastIndexByte(fileLine, ':')
+	if i < 0 {
+		return fileLine
+	}
+	file, line := fileLine[:i], fileLine[i+1:]
+	switch kind {
+	case "base":
+		return filepath.Base(file) + "#" + line
+	case "tag":
+		return "at " + line + " of " + file
+	}
+	return fileLine
 }
 
 type rw struct{ last []byte }
@@ -134,7 +155,15 @@ func run(c *Case, shared *zerolog.Logger, out *rw) string {
 		l = &lg
 	}
 	oldPkg := zlog.Logger
-	defer func() { zerolog.CallerSkipFrameCount = oldGlobal; zlog.Logger = oldPkg }()
+	oldMarshal := zerolog.CallerMarshalFunc
+	defer func() {
+		zerolog.CallerSkipFrameCount, zlog.Logger, zerolog.CallerMarshalFunc = oldGlobal, oldPkg, oldMarshal
+	}()
+	if kind := c.Marshal; kind != "" {
+		zerolog.CallerMarshalFunc = func(pc uintptr, file string, line int) string {
+			return renderCaller(kind, file+":"+strconv.Itoa(line))
+		}
+	}
 	zlog.Logger = *l
 	stdl := stdlog.New(*l, "", 0)
 	j := c.J
@@ -208,11 +237,11 @@ func run(c *Case, shared *zerolog.Logger, out *rw) string {
 	if len(got) != nwant {
 		return fmt.Sprintf("expected %d caller field(s), got %d in %s", nwant, len(got), out.last)
 	}
-	if want2 >= 0 && got[1] != marked[want2] {
-		return fmt.Sprintf("second caller field=%s, want %s (frame %d above the call site; site line %s)", got[1], marked[want2], want2, marked[0])
+	if want2 >= 0 && got[1] != renderCaller(c.Marshal, marked[want2]) {
+		return fmt.Sprintf("second caller field=%s, want %s (frame %d above the call site; site line %s)", got[1], renderCaller(c.Marshal, marked[want2]), want2, marked[0])
 	}
-	if got[0] != marked[want] {
-		return fmt.Sprintf("caller=%s, want %s (frame %d above the call site; site line %s)", got[0], marked[want], want, marked[0])
+	if got[0] != renderCaller(c.Marshal, marked[want]) {
+		return fmt.Sprintf("caller=%s, want %s (frame %d above the call site; site line %s; CallerMarshalFunc %q)", got[0], renderCaller(c.Marshal, marked[want]), want, marked[0], c.Marshal)
 	}
 	return ""
 }
@@ -250,7 +279,7 @@ func TestExhaustiveProduct(t *testing.T) {
 							continue
 						}
 						for _, hooks := range []string{"none", "before", "after", "both"} {
-							c := &Case{Site: id, Name: si.Name, Mech: mech, J: j, Depth: d, Hooks: hooks}
+							c := &Case{Site: id, Name: si.Name, Mech: mech, J: j, Depth: d, Hooks: hooks, Marshal: []string{"", "base", "", "tag", ""}[n%5]}
 							n++
 							if nontrivial(c) {
 								nt++
@@ -341,6 +370,7 @@ func TestRapidSequences(t *testing.T) {
 				c.J = rapid.IntRange(0, 4).Draw(rt, "j")
 			}
 			c.Depth = rapid.IntRange(0, 4).Draw(rt, "depth")
+			c.Marshal = rapid.SampledFrom([]string{"", "", "base", "tag"}).Draw(rt, "marshal")
 			seq = append(seq, c)
 			b, _ := json.Marshal(c)
 			rec.Case(b, nontrivial(&c), "sequence-step")
